@@ -675,6 +675,9 @@ func reslicedShorter(v ssa.Value, seen map[ssa.Value]bool) *ssa.Slice {
 	switch x := v.(type) {
 	case *ssa.Slice:
 		if x.High != nil {
+			if x.Max != nil && (x.Max == x.High || sameConst(x.Max, x.High)) {
+				return nil // x[:k:k] has no spare capacity: append reallocates (slices.Clone's idiom)
+			}
 			if _, isStr := x.X.Type().Underlying().(*types.Basic); !isStr {
 				return x
 			}
@@ -694,6 +697,12 @@ func reslicedShorter(v ssa.Value, seen map[ssa.Value]bool) *ssa.Slice {
 		return reslicedShorter(x.X, seen)
 	}
 	return nil
+}
+
+func sameConst(a, b ssa.Value) bool {
+	ka, ok1 := a.(*ssa.Const)
+	kb, ok2 := b.(*ssa.Const)
+	return ok1 && ok2 && ka.Value != nil && kb.Value != nil && ka.Value.ExactString() == kb.Value.ExactString()
 }
 
 func funcFullName(f *ssa.Function) string {
